@@ -208,6 +208,26 @@ def r2_publish_after_close(repo=None):
     sites = publish_sites(tu)
     if len(sites) < 2:
         raise AnalysisError("expected 2 publish sites (roll-over, final close), found %d" % len(sites))
+    # the same typestate in the functions that hold no publish call: a handle forgotten there (zeroed while it may be open, e.g. on
+    # an error path that believes nothing is open) is never closed, so the file it belongs to is never published at all
+    pub_fns = {fname for fname, call in sites}
+    for fname, fn in tu.functions.items():
+        if fname in pub_fns:
+            continue
+        zs = [(path, node) for path, node, rhs, kind in clib.stores(fn) if path and path.startswith(clib.OBJ + "->") and path.split("->")[-1] in HANDLES
+              and kind == "=" and rhs is not None and rhs.intval() == 0]
+        if not zs:
+            continue
+        try:
+            g_, IN_, events_, _t = clib.handle_states(fn, HANDLES)
+        except AnalysisError:
+            raise
+        for kind, n, f, prev in events_:
+            if fname in ("digital_rf_create_write_hdf5",):
+                continue        # the constructor initialises the fields of a fresh object
+            r.violation(LIB, fname, "%s = 0 without close" % f, "handle `%s` is zeroed without its H5?close call on some path (state %s): the file it "
+                        "belongs to stays open and unnamed - the next roll-over or close skips the close-and-rename step and the `tmp.` "
+                        "file is never published" % (f, prev), line=n.line)
     for fname, call in sites:
         fn = tu.fn(fname)
         g, IN, events, transfer = clib.handle_states(fn, HANDLES)
